@@ -96,7 +96,50 @@ class C09(PropBase):
                 dg = {"nodes": g["nodes"] + [("T", v) for v in tr], "dir": g["dir"] + [[("T", v), v] for v in tr], "bid": g["bid"]}
                 topo = rand_topo(rng, dg)
                 doms.append({"transport": tr, "policy": pol, "topo": [t if not isinstance(t, tuple) else ["T", t[1]] for t in topo]})
-            if rng.random() < 0.2 and len(g["nodes"]) >= 4:
+            if rng.random() < 0.06:
+                # the first usable domain cannot identify a factor (a bow into the outcome), a later one can: a policy on X reading a covariate
+                # that comes AFTER X in the first domain's order; the later domain's own order has to be used for it
+                x, pre, y = rng.sample([0, 1, 2], 3)
+                g = {"nodes": [0, 1, 2], "dir": [[x, y], [pre, y]], "bid": [[pre, y]] + ([[x, y]] if rng.random() < 0.6 else [])}
+                if rng.random() < 0.3:
+                    g["nodes"].append(3); g["dir"].append([3, rng.choice([x, pre, y])])
+                rest = [v for v in g["nodes"] if v not in (x, pre, y)]
+                t1 = rand_topo(rng, g)
+                for _ in range(8):       # X before the covariate whenever the graph leaves the two unordered
+                    if t1.index(x) < t1.index(pre) or rng.random() < 0.1:
+                        break
+                    t1 = rand_topo(rng, g)
+                d1 = {"transport": [], "policy": [], "topo": t1}
+                ddir = [e for e in g["dir"] if e[1] != x] + [[pre, x]]
+                dbid = [e for e in g["bid"] if x not in e]
+                d2 = {"transport": [], "policy": [x], "topo": rand_topo(rng, {"nodes": g["nodes"], "dir": ddir, "bid": dbid}), "dir": ddir, "bid": dbid}
+                ev = [[{"k": "C", "n": Vn(y), "s": None, "i": [[Vn(x), rng.random() < 0.3]]}, [Vn(y), rng.random() < 0.3]]]
+                cases.append({"kind": "uncond", "g": {"nodes": sorted(g["nodes"]), "dir": g["dir"], "bid": g["bid"]}, "domains": [d1, d2], "event": ev})
+                continue
+            if rng.random() < 0.15 and len(g["nodes"]) >= 3:
+                # a policy regime: in the last domain one policy variable X gets a mechanism of its own - its incoming edges (directed and bidirected)
+                # are replaced by one edge from a variable that is not among its descendants. The domains then have different diagrams and different
+                # valid orders (Algorithm 4 has to work in each domain's own). Checked against the model only: the value oracle reads domains as
+                # target-like SCMs.
+                desc = lambda x: {x} | {b_ for a_, b_ in g["dir"] if a_ == x}    # noqa: E731
+                x = rng.choice(g["nodes"])
+                D, grew = desc(x), True
+                while grew:
+                    nxt = set(D)
+                    for v in D:
+                        nxt |= desc(v)
+                    grew, D = nxt != D, nxt
+                cand = [v for v in g["nodes"] if v not in D]
+                if cand:
+                    pnew = rng.choice(cand)
+                    ddir = [e for e in g["dir"] if e[1] != x] + [[pnew, x]]
+                    dbid = [e for e in g["bid"] if x not in e]
+                    tr = GG.rand_subset(rng, [v for v in g["nodes"] if v != x], 0, 1)
+                    dg = {"nodes": g["nodes"] + [("T", v) for v in tr], "dir": ddir + [[("T", v), v] for v in tr], "bid": dbid}
+                    dom = {"transport": tr, "policy": [x], "topo": [t if not isinstance(t, tuple) else ["T", t[1]] for t in rand_topo(rng, dg)],
+                           "dir": ddir, "bid": dbid}
+                    doms = doms[:1] + [dom]
+            if rng.random() < 0.2 and len(g["nodes"]) >= 4 and not any("dir" in d for d in doms):
                 # nested interventions along a chain: {Y_{x1,x2} = y, W_{x2} = w} with x1 -> x2 -> w -> y
                 order = list(g["nodes"]); rng.shuffle(order)
                 x1, x2, w, y = order[0], order[1], order[2], order[-1]
@@ -139,7 +182,8 @@ class C09(PropBase):
         target = GG.to_y0(g)
         domain_graphs, domain_data, coq_doms = [], [], []
         for k, d in enumerate(case["domains"]):
-            gr = GG.to_y0(g)
+            dgd = {"nodes": g["nodes"], "dir": d.get("dir", g["dir"]), "bid": d.get("bid", g["bid"])}
+            gr = GG.to_y0(dgd)
             for v in d["transport"]:
                 gr.add_directed_edge(Variable(f"T_V{v}"), GG.V(v))
             topo = [Variable(f"T_V{t[1]}") if isinstance(t, list) else GG.V(t) for t in d["topo"]]
@@ -147,8 +191,8 @@ class C09(PropBase):
             domain_graphs.append((gr, topo))
             domain_data.append(({GG.V(v) for v in d["policy"]}, pp))
             gq = (f"(MG {c_list([OFF + v for v in g['nodes']] + [50 + v for v in d['transport']])} "
-                  f"{'[' + '; '.join(f'({OFF + a}, {OFF + b})' for a, b in g['dir']) + ('; ' if g['dir'] and d['transport'] else '') + '; '.join(f'({50 + v}, {OFF + v})' for v in d['transport']) + ']'} "
-                  f"{'[' + '; '.join(f'({OFF + a}, {OFF + b})' for a, b in g['bid']) + ']'})")
+                  f"{'[' + '; '.join(f'({OFF + a}, {OFF + b})' for a, b in dgd['dir']) + ('; ' if dgd['dir'] and d['transport'] else '') + '; '.join(f'({50 + v}, {OFF + v})' for v in d['transport']) + ']'} "
+                  f"{'[' + '; '.join(f'({OFF + a}, {OFF + b})' for a, b in dgd['bid']) + ']'})")
             tq = c_list([(50 + t[1]) if isinstance(t, list) else OFF + t for t in d["topo"]])
             coq_doms.append(f"(mkDom {gq} {tq} {c_list([OFF + v for v in d['policy']])} {GE.c_expr(pp)})")
         return target, domain_graphs, domain_data, "[" + "; ".join(coq_doms) + "]"
@@ -164,13 +208,14 @@ class C09(PropBase):
         g = case["g"]
         def N(k):
             return Variable(f"{prefix}{k}")
-        def mk(extra_dir=()):
-            return NxMixedGraph.from_edges(nodes=[N(v) for v in g["nodes"]], directed=[(N(a), N(b)) for a, b in g["dir"]] + list(extra_dir),
-                                           undirected=[(N(a), N(b)) for a, b in g["bid"]])
+        def mk(extra_dir=(), d=None):
+            d = d or {}
+            return NxMixedGraph.from_edges(nodes=[N(v) for v in g["nodes"]], directed=[(N(a), N(b)) for a, b in d.get("dir", g["dir"])] + list(extra_dir),
+                                           undirected=[(N(a), N(b)) for a, b in d.get("bid", g["bid"])])
         target = mk()
         domain_graphs, domain_data = [], []
         for k, d in enumerate(case["domains"]):
-            gr = mk([(Variable(f"T_{prefix}{v}"), N(v)) for v in d["transport"]])
+            gr = mk([(Variable(f"T_{prefix}{v}"), N(v)) for v in d["transport"]], d)
             topo = [Variable(f"T_{prefix}{t[1]}") if isinstance(t, list) else N(t) for t in d["topo"]]
             domain_graphs.append((gr, topo))
             domain_data.append(({N(v) for v in d["policy"]}, PP[Variable(f"pi{k + 1}")](*[N(v) for v in g["nodes"]])))
@@ -232,7 +277,7 @@ class C09(PropBase):
                                                                                target_domain_graph=target, domain_graphs=domain_graphs, domain_data=domain_data)
         except Exception as ex:  # noqa: BLE001  -- the input does not pass the procedure's own validation: outside the property
             return {"out": "rejected-by-validation", "violation": None, "nontrivial": False, "features": [case["kind"], "invalid-input:" + type(ex).__name__],
-                    "term": "CUncond [] (MG [] [] []) [] 2 EOne None", "key": "C09/ok"}
+                    "term": "CUncond [] (MG [] [] []) [] 0 EOne (Some [])", "key": "C09/ok"}
         try:
             if case["kind"] == "uncond":
                 event = evl(case["event"])
@@ -249,7 +294,7 @@ class C09(PropBase):
         violation, key = None, "C09/ok"
         if exc is not None:
             violation, key = f"{case['kind']} query raised {exc} on an input that passes validation", f"C09/crash/{exc}{exc_site}"
-        elif res is not None and len(g["bid"]) <= 3:
+        elif res is not None and len(g["bid"]) <= 3 and not any("dir" in d for d in case["domains"]):
             violation, key = self.semantic(case, g, res)
         # names: the answer may not depend on what the variables are called (in particular not on a name starting like a selection node's)
         import zlib
@@ -276,7 +321,7 @@ class C09(PropBase):
         kind_out = "exception" if exc else ("fail" if res is None else ("zero" if isinstance(res.expression, Zero) else "expr"))
         return {"out": (str(res.expression), str(res.event)) if res is not None else code, "violation": violation,
                 "nontrivial": kind_out != "expr" or (res is not None and type(res.expression).__name__ != "PopulationProbability"),
-                "features": [case["kind"], f"n={len(g['nodes'])}", f"domains={len(case['domains'])}", kind_out], "term": term, "key": key}
+                "features": [case["kind"], f"n={len(g['nodes'])}", f"domains={len(case['domains'])}", kind_out] + (["policy-regime-diagram"] if any("dir" in d for d in case["domains"]) else []), "term": term, "key": key}
 
     def semantic(self, case, g, res):
         from y0.dsl import Intervention, Zero
